@@ -34,7 +34,7 @@ macro_rules! check_type {
             match gi {
                 Out::Ok(i) => {
                     // inverse of the formula: even y -> y/2, odd y -> -(y+1)/2
-                    let expi: i128 = if y & 1 == 0 { (y >> 1) as i128 } else { -(((y >> 1) as i128) + 1) };
+                    let expi: i128 = if y & 1 == 0 { (y >> 1) as i128 } else { !((y >> 1) as i128) };
                     let expi_ok = (i as i128) == expi || core::mem::size_of::<$U>() == 16 && (y >> 1) as i128 >= 0 && (i as i128) == expi;
                     let back = guard_v(|| i.to_nat());
                     if !expi_ok || back != Out::Ok(y) {
